@@ -80,6 +80,8 @@ func (r *renderer) visitType(t *Type) {
 	case KPtr, KSlice:
 		r.visitType(t.Elem)
 		return
+	case KBasic:
+		return
 	}
 	if r.seenT[t] {
 		return
@@ -222,6 +224,8 @@ func (r *renderer) typeExpr(f *file, t *Type) string {
 		return "*" + r.typeExpr(f, t.Elem)
 	case KSlice:
 		return "[]" + r.typeExpr(f, t.Elem)
+	case KBasic:
+		return "int"
 	default:
 		return f.q(t.Pkg) + t.Name
 	}
@@ -234,6 +238,8 @@ func (r *renderer) descFunc(f *file, t *Type) string {
 		return fmt.Sprintf("func(e %s) string { return %s }", r.typeExpr(f, t), r.descExpr(f, t, "e"))
 	case KAlias:
 		return r.descFunc(f, t.Elem)
+	case KBasic:
+		return fmt.Sprintf("func(e int) string { return \"#\" + %sItoa(e) }", f.vt())
 	default:
 		return f.q(t.Pkg) + "Desc_" + t.Name
 	}
@@ -248,6 +254,8 @@ func (r *renderer) descExpr(f *file, t *Type, x string) string {
 		return fmt.Sprintf("%sSlice(%s, %s)", f.vt(), x, r.descFunc(f, t.Elem))
 	case KAlias:
 		return r.descExpr(f, t.Elem, x)
+	case KBasic:
+		return fmt.Sprintf("(\"#\" + %sItoa(%s))", f.vt(), x)
 	default:
 		return fmt.Sprintf("%sDesc_%s(%s)", f.q(t.Pkg), t.Name, x)
 	}
@@ -260,6 +268,8 @@ func (r *renderer) mintExpr(f *file, t *Type, id string) string {
 		return fmt.Sprintf("%s%s{ID: %s}", f.q(t.Pkg), t.Name, id)
 	case KInt:
 		return fmt.Sprintf("%s%s(%s)", f.q(t.Pkg), t.Name, id)
+	case KBasic:
+		return fmt.Sprintf("int(%s)", id)
 	case KIface:
 		return fmt.Sprintf("%s%s(&%s%sAuto{ID: %s})", f.q(t.Pkg), t.Name, f.q(t.Pkg), t.Name, id)
 	case KAgg:
@@ -436,6 +446,7 @@ func (r *renderer) renderFunc(f *file, fn *Func) {
 	} else {
 		f.p("\t_ = fail\n")
 	}
+	f.p("\t_ = id\n")
 	f.p("\treturn %s", r.mintExpr(f, fn.Out, "id"))
 	if fn.Cleanup {
 		f.p(", func() { %sCleanup(%q, id) }", f.vt(), fn.Name)
